@@ -8,7 +8,8 @@ An AModel is a plain dict (JSON-able, so it can be stored as a replay):
   param = {"name","ref":bool,"text","dump"}
   loc   = {"id","name":str|None,"labels":[[kind,expr]], "urgent":bool,"committed":bool}     kind: invariant|exponentialrate
   edge  = {"src":id,"tgt":id,"ctrl":None|True|False,"labels":[[kind,payload]]}
-          kind: select (payload=[[id,type]]) | guard | synchronisation (payload=[expr,dir]) | assignment | probability
+          kind: select (payload=[[id,type]]) | guard | synchronisation (payload=[expr,dir]; dir "!" | "?", C20 also "" = CSP style)
+                | assignment | probability
   inst  = {"name","params":[param],"templ","args":[expr]}
 Expressions / types are nested lists ["LE",["id","x"],["int",5]] rendered to text *and* to the canonical S-expression
 the harness prints, so the placement of every label can be checked without trusting the expression parser of the
@@ -28,6 +29,8 @@ def etext(e):
         return str(e[1])
     if k == "id":
         return e[1]
+    if k == "str":
+        return '"%s"' % e[1]        # a string literal (no quote or backslash inside); only C20 puts these into labels
     if k == "ARRAY":
         return "%s[%s]" % (etext(e[1]), etext(e[2]))
     if k == "FUN_CALL":
@@ -47,6 +50,8 @@ def esexp(e):
         return "(CONSTANT int %d)" % e[1]
     if k == "id":
         return "(IDENTIFIER %s)" % e[1]
+    if k == "str":
+        return '(CONSTANT string "%s")' % e[1]
     return "(" + k + "".join(" " + esexp(a) for a in e[1:]) + ")"
 
 
@@ -541,6 +546,7 @@ class XmlText:
             itext = ""
         # (no comment between </system> and </nta>: the reader then runs off the end of the document -- reported
         #  separately as finding text:comment-after-system)
+        stext += M.get("system_tail", "")        # (C05: text after the system line, e.g. a comment that is never closed)
         o.append("<system>%s</system>" % self.text(itext + stext) + self.v.choice(["", "\n", " \n "]) if self.v else "<system>%s</system>\n" % self.text(itext + stext))
         if self.ch(0.2):
             o.append("<queries>\n<query><formula>A[] true</formula><comment>c</comment></query>\n</queries>\n")
@@ -621,7 +627,7 @@ def render_xta(M, prefs=(), vary=None):
     stext = "system "
     for k, p in enumerate(M["procs"]):
         stext += ("" if k == 0 else (" < " if p["lt"] else ", ")) + p["name"]
-    o.append(stext + ";")
+    o.append(stext + ";" + M.get("system_tail", ""))
     return "\n".join(o) + "\n"
 
 
